@@ -226,9 +226,19 @@ func (cb *CellBuffer) Resize(w, h int) {
 // Fill fills the entire cell buffer array with the specified character
 // and style.  Normally choose ' ' to clear the screen.  This API doesn't
 // support combining characters, or characters with a width larger than one.
+// A rune that cannot be displayed in a cell of its own (a control character,
+// a zero-width or format character, an invalid code point) fills the buffer
+// with blanks instead.
 // If either the foreground or background are ColorNone, then the respective
 // color is unchanged.
 func (cb *CellBuffer) Fill(r rune, style Style) {
+	// Such runes have no width.  GetContent shows them as blanks when they
+	// were stored with SetContent; every cell filled here has a width of
+	// one, so make the substitution now rather than hand the raw rune
+	// (possibly a terminal control) to the screen.
+	if runewidth.RuneWidth(r) == 0 {
+		r = ' '
+	}
 	for i := range cb.cells {
 		c := &cb.cells[i]
 		c.currMain = r
